@@ -562,6 +562,7 @@ int main(int argc, char** argv) {
 		else if (a == "--verbose") opt.verbose = true;
 		else if (a == "--mode") opt.mode = next();
 		else if (a == "--marks") opt.marks = atoi(next().c_str()) != 0;
+		else if (a == "--initial-cancel") opt.initialCancel = atoi(next().c_str()) != 0;
 		else if (a == "--info") {
 			printf("{\"type\":\"info\",\"program\":\"%s\",\"states\":%d,\"sizeof_instance\":%zu}\n", VT_PROG_NAME, VT_STATE_COUNT, sizeof(FSM::Instance));
 			return 0;
